@@ -131,7 +131,7 @@ func drawMDSpell(g *rand.Rand, maxKeys int, spell map[string]string) map[string]
 var statusMsgs = []string{"", "boom", "Ünïcödé ✓ 失敗", strings.Repeat("long message ", 600)}
 
 func drawStatus(g *rand.Rand) *StatusSpec {
-	sp := &StatusSpec{ErrKind: g.IntN(5), Code: 1 + g.IntN(16), Msg: statusMsgs[g.IntN(len(statusMsgs))], Details: g.IntN(4)}
+	sp := &StatusSpec{ErrKind: g.IntN(6), Code: 1 + g.IntN(16), Msg: statusMsgs[g.IntN(len(statusMsgs))], Details: g.IntN(4)}
 	if sp.ErrKind >= 2 {
 		sp.Details = 0
 		if sp.Msg == "" {
@@ -785,8 +785,12 @@ func checkStatus(run *MixRun) {
 			if gs.Code() == codes.OK {
 				e.Violate(prop, "success-on-failure", site, "call %d: non-status error surfaced with code OK", id)
 			}
-			if !strings.Contains(gs.Message(), want.Error()) {
-				e.Violate(prop, "error-text-lost", site, "call %d: caller status message %q does not carry the error text %q", id, trunc(gs.Message()), trunc(want.Error()))
+			text := want.Error()
+			if c.HStatus.ErrKind == 5 {
+				text = c.HStatus.Msg // the error carries a status of its own: its message is the text
+			}
+			if !strings.Contains(gs.Message(), text) {
+				e.Violate(prop, "error-text-lost", site, "call %d: caller status message %q does not carry the error text %q", id, trunc(gs.Message()), trunc(text))
 			}
 		}
 	}
